@@ -18,6 +18,17 @@ CLAIMED = {
     "C04": ("Cooler.extent/offset, bins()/pixels()/matrix() fetch, GenomeSegmentation.fetch and bedslice are executed on bin tables with symbolic widths "
             "(fixed-width path taken through the real get_binsize; variable path) and symbolic (chrom, start, end): selected bins == overlapping bins of that "
             "chromosome; pixel and two-region matrix fetch == index queries on the extents.", "4/C04"),
+    "C05": ("sanitize_records, sanitize_pixels and aggregate_records run on symbolic records (chromosome incl. unlisted, unbounded positions, sided field) "
+            "over bin tables with symbolic widths: rejected iff an anchor is outside its chromosome, dropped iff unlisted (or tril under drop), otherwise "
+            "assigned to the bins containing the anchors, mirrored with its sided fields, counted once.", "4/C05"),
+    "C06": ("create_cooler(ordered=False) executed end to end on symbolic chunks with solver-chosen merge buffer and fan-in (one- and two-pass): output "
+            "== per-pixel sum of all records and schema-valid; merge_breakpoints decided at function level.", "4/C06"),
+    "C07": ("merge_coolers executed on k arbitrary valid inputs with symbolic buffer: exact per-pixel aggregate (sum/max), nothing missing or extra, "
+            "total preserved, schema-valid; overflow of the column type is an error; acceptance <=> equal bin tables and storage modes.", "4/C07"),
+    "C08": ("coarsen_cooler executed on arbitrary valid inputs (fixed and variable bins, factor and chunk size solver-chosen, batched map): new bin table "
+            "and per-block exact aggregates, totals, validity; composition by the div-lemma.", "4/C08"),
+    "C09": ("get_multiplier_sequence decided on symbolic resolution sets; zoomify_cooler executed end to end with one or two symbolic bases: layout, "
+            "recognition, every level equals direct coarsening of a base, bases are faithful copies, non-derivable sets refused.", "4/C09"),
     "C20": ("binnify is decided for symbolic chromosome lengths (width concrete per case), get_binsize/get_chromsizes for every valid bin table of each "
             "layout with symbolic widths: a reported size implies every bin has the fixed form.", "4/C20"),
     "C03": ("For every stored matrix with n<=3 bins / K<=2 pixels (thorough n<=4,K<=3), every window, both storage modes, dense and sparse output "
